@@ -40,7 +40,50 @@ def prepare(repo, scratch):
     ct = re.sub(r'\[dev-dependencies\][^\[]*', '', ct)
     open(os.path.join(rc, 'Cargo.toml'), 'w').write(ct)
     os.makedirs(os.path.join(root, 'drv', 'src'), exist_ok=True)
-    shutil.copy(os.path.join(VERIF, 'replay', 'src', 'main.rs'), os.path.join(root, 'drv', 'src', 'main.rs'))
+    drv_src = open(os.path.join(VERIF, 'replay', 'src', 'main.rs')).read()
+    # the driver reads private fields (arena, free list, links): a field renamed consistently in /repo (same detection as the
+    # extractor's T20b) is renamed in the driver's field accesses too
+    try:
+        import extract
+        per_mod = {}
+        broot = os.path.join(VERIF, 'contracts', 'base')
+        for dp, _, fs in os.walk(os.path.join(broot, 'src')):
+            for f in fs:
+                if not f.endswith('.rs'):
+                    continue
+                rel = os.path.relpath(os.path.join(dp, f), broot)
+                cp = os.path.join(repo, rel)
+                if not os.path.exists(cp):
+                    continue
+                bt, ct = open(os.path.join(dp, f)).read(), open(cp).read()
+                if bt == ct:
+                    continue
+                parts = rel.split(os.sep)
+                mod = parts[1] if len(parts) > 2 else ''
+                b = extract.transform(bt, extract.Counts())
+                c = extract.transform(ct, extract.Counts())
+                bm = extract._line_map(b, c)[0]
+                d = per_mod.setdefault(mod, ([], [], []))
+                d[0].extend((b[k][0], c[m[1]][0]) for k, m in bm.items() if m[0] == 'mod')
+                d[1].extend(t for t, _ in c)
+                d[2].extend(t for t, _ in b)
+        frens = {m: extract.field_renames(d[0], d[1], d[2]) for m, d in per_mod.items() if d[0]}
+        frens = {m: r for m, r in frens.items() if r}
+        if frens:
+            # the driver's items are specific to one module of the crate (key / map / set / seg): rename inside those items only
+            items = re.split(r'(?m)^(?=(?:fn |impl |struct |pub fn ))', drv_src)
+            for q, it in enumerate(items):
+                head = it.split('\n', 1)[0]
+                mod = ('key' if re.search(r'key|Key|clear_expired', head) else 'map' if re.search(r'map|Map', head) else
+                       'set' if re.search(r'set|Set', head) else 'seg' if re.search(r'seg|Seg', head) else None)
+                if mod in frens:
+                    fr = frens[mod]
+                    items[q] = re.sub(r'(?<=\.)(%s)\b' % '|'.join(map(re.escape, fr)), lambda m: fr[m.group(1)], it)
+            drv_src = ''.join(items)
+    except SystemExit:
+        pass
+    with open(os.path.join(root, 'drv', 'src', 'main.rs'), 'w') as fh:
+        fh.write(drv_src)
     with open(os.path.join(root, 'drv', 'Cargo.toml'), 'w') as fh:
         fh.write('[package]\nname = "replay"\nversion = "0.1.0"\nedition = "2021"\n[dependencies]\ni_tree = { path = "../repo_copy" }\n[profile.dev]\nopt-level = 1\noverflow-checks = true\ndebug-assertions = true\n')
     env = dict(os.environ, CARGO_NET_OFFLINE='true')
